@@ -41,6 +41,9 @@ EXTRA_PROGRAMS = [
     "from [{a = 1}, {a = b}]",
     "from [{a = 1}, {a = 1 + 1}]",
     "from [{a = 1, b = {c = 2}}]",
+    # e6f83f8 relation literal: a row that is not a tuple
+    "from [{a = 1}, 2]",
+    "from [{a = 1}, [2], \"x\"]",
     # 8204886 from_text with a header and zero rows, then a transform that needs the relation type
     "from_text format:csv \"a,b\" | derive {c = a + 1}",
     "from_text format:csv \"a,b\\n\" | join u (==a)",
